@@ -437,6 +437,7 @@ CHECKS = {
 }
 
 
+REPLAY_FNS = {}
 # checks contributed by separate modules (world / system data / meta table / par-seq)
 import importlib
 for _m in ["props_world", "props_sysdata", "props_meta", "props_parseq"]:
@@ -448,11 +449,14 @@ for _m in ["props_world", "props_sysdata", "props_meta", "props_parseq"]:
         log("NOTE: %s not loaded: %r" % (_m, _e))
         continue
     CHECKS.update(getattr(_mod, "CHECKS", {}))
+    REPLAY_FNS.update(getattr(_mod, "REPLAY_FNS", {}))
     EXTRA_MODULES += list(getattr(_mod, "MODULES", []))
 
 
 def replay(ctx, path):
     """Re-validate a saved replay trace with the property's invariants."""
+    if ctx.prop in REPLAY_FNS:
+        return REPLAY_FNS[ctx.prop](ctx, path)
     invs = TRACE_INVS.get(ctx.prop, [])
     res = tlc_trace(ctx, "ShredTrace", path, invs)
     if not res["accepted"]:
